@@ -78,6 +78,7 @@ PoolSets ==
       [] Family = "C15ops"  -> <<Wrap15(PoolC15ops), Wrap15(PoolC15misc)>>
       [] Family = "C15edges" -> <<PoolC15edges>>
       [] Family = "C11pairs" -> <<PoolC11pairs(ElemNames)>>
+      [] Family = "C11pred"  -> <<PoolC11pred(ElemNames)>>
       [] Family = "C11more"  -> <<PoolC11nested(ElemNames), PoolC11seq(ElemNames)>>
       [] Family = "C13wrap" -> [i \in 1 .. 12 |-> PoolC13wrap({SetToSeq(AllAxes)[i]}, TestsA)
                                                   \cup UNION {Wrappers(Path(ab, <<Step(ax, NTAny, <<>>), Step(SetToSeq(AllAxes)[i], nt, <<>>)>>)) :
